@@ -298,6 +298,26 @@ func (r *persistRunner) Exec(line string) string {
 			}
 		}
 		return out
+	case "destroy":
+		// Close, DestroyClosed, then a new persister at the same path: nothing of the old content may be left (on a sharded
+		// persister: in none of the shards)
+		for _, p := range r.paths {
+			unregisterGate(p)
+		}
+		if err := r.p.Close(); err != nil {
+			return "err-close:" + err.Error()
+		}
+		if err := r.p.DestroyClosed(); err != nil {
+			return "err-destroy:" + err.Error()
+		}
+		r.ref = map[string][]byte{}
+		r.open()
+		r.tag("destroy")
+		got := r.rangeAll()
+		if len(got) != 0 {
+			r.add("C09", "content-after-destroy", fmt.Sprintf("RangeKeys visits %d keys of a persister re-created after Close + DestroyClosed", len(got)))
+		}
+		return r.dump("after destroy")
 	case "range":
 		got := r.rangeAll()
 		ks := make([]string, 0, len(got))
@@ -403,7 +423,9 @@ func (persistComp) Gen(rng *rand.Rand, tier string) [][]string {
 			case x < 80:
 				h = append(h, "rm "+k)
 			case x < 86 || (!withTick && x < 90):
-				if kind != "mem" {
+				if kind != "mem" && rng.Intn(8) == 0 {
+					h = append(h, "destroy")
+				} else if kind != "mem" {
 					h = append(h, "reopen")
 					if rng.Intn(2) == 0 {
 						h = append(h, "range")
